@@ -3,6 +3,7 @@ from .. import ir
 from ..analysis import And, Atom, Not, Or, cmp_formula, implies, show, uncond_subnodes, sure_subnodes, diverges
 from ..common import (BLOCK, CORE, CONSENSUS_MSG, Env, call_args, callee_paths, core_handlers, key, ordinal_keys)
 from ..wiring import Wiring, MPSC_RECV
+from ..analysis import T as T_
 
 LEVEL = "other"
 CONFIGS = ("default", "benchmark")
@@ -234,9 +235,14 @@ def rules(P, R, prefix="C07"):
                     for a in f.ancestors(n):
                         if a["k"] == "match":
                             for arm in a["arms"]:
-                                if any(x is n for x in ir.walk(arm["body"])) and arm["pat"].get("path") == CONSENSUS_MSG + "::SyncRequest":
+                                if any(x is n for x in ir.walk(arm["body"])) and arm["pat"].get("path") == CONSENSUS_MSG + "::SyncRequest" \
+                                        and "guard" not in arm and a["arms"].index(arm) == 0 or (
+                                        any(x is n for x in ir.walk(arm["body"])) and arm["pat"].get("path") == CONSENSUS_MSG + "::SyncRequest" and "guard" not in arm
+                                        and not any(b["pat"]["k"] in ("pwild", "pbind") for b in a["arms"][:a["arms"].index(arm)])):
+                                    from ..common import inner_cond
+                                    extra = inner_cond(env.flow(f), n, arm["body"], drop_ok_facts=True) if arm["body"] is not n else T_
                                     pt = ctx.term(p)
-                                    routed = pt.endswith(".SyncRequest.0,%s.SyncRequest.1)" % pt[1:pt.index(".SyncRequest.0")]) if ".SyncRequest.0" in pt else False
+                                    routed = extra == T_ and pt.endswith(".SyncRequest.0,%s.SyncRequest.1)" % pt[1:pt.index(".SyncRequest.0")]) if ".SyncRequest.0" in pt else False
             R.judge(routed, prefix + ".Y5", key(dsp, "SyncRequest(missing, origin) routed unchanged to the helper" + tag), dsp.sp, "",
                     "SyncRequest is not forwarded as (missing, origin) to the helper's channel")
             R.judge("Propose" in handlers, prefix + ".Y5", "Propose replies enter through the proposal handler" + tag, "", "", "no Propose handler")
